@@ -289,7 +289,7 @@ def build_cxx(kind='san'):
                 if name.startswith('h_comp_'):
                     # an OPTIONAL component (it reaches into an internal interface): a stub stands in, only its own cases are affected
                     unit = name[2:]
-                    rc_s, out_s = sh('g++ %s -DSTUB_%s -c %s -o %s/%s.o' % (flags, unit.upper(), os.path.join(HARNESS, 'stubs.cpp'), d, name))
+                    rc_s, out_s = sh('g++ %s %s -DSTUB_%s -c %s -o %s/%s.o' % (flags, inc, unit.upper(), os.path.join(HARNESS, 'stubs.cpp'), d, name))
                     if rc_s == 0:
                         err = [l for l in out.splitlines() if 'error' in l]
                         unavailable[unit] = (err[0] if err else out[-300:]).strip()[:400]
@@ -431,6 +431,13 @@ def run_both(bdir, cases, tag, shards=None, timeout=3600, model=True, keys=None,
                 # the harness unit of this component does not compile against the tree under test (a stub answers)
                 result['unavailable'].add(a[0][1] if len(a[0]) > 1 else '?')
                 continue
+            if a is not None and any(x[:2] == ['mode', 'public-only'] for x in a):
+                # the UPD unit runs through the public entry point: the composed sweep only
+                result.setdefault('degraded', set()).add('comp_upd: public entry point + hooks (composed sweep only)')
+                pub = {'dims', 'sweep_u', 'sweep_v', 'sweep_w', 'sweep_lik', 'PUBLIC-ERROR', 'PUBLIC-NO-SWEEP'}
+                a = [x for x in a if x and x[0] in pub]
+                if b is not None:
+                    b = [x for x in b if x and x[0] in pub]
             if a is not None:
                 a = [x for x in a if not (x and x[0].startswith('@'))]   # impl-only observations (oracle input)
             if keys is not None:
